@@ -321,6 +321,7 @@ func checkC13(p *Prog, r *Report) {
 	// all three layouts reach the model through the same year lookup: it hands over the days of that year and nothing
 	// from the slots behind them, whose content depends on the layout's buffer (shared with C04.R5)
 	c04LoadYear(p, r, "C13.year-lookup")
+	lostWrites(p, r, "C13.lost-writes")
 }
 
 func short(k string) string { return strings.TrimPrefix(k, "hermes.") }
@@ -1240,4 +1241,81 @@ func c13HeaderNames(p *Prog, r *Report) {
 			return false
 		})
 	}
+}
+
+// ---------------------------------------------------------------- stores to a value receiver are lost
+
+// lostWrites: a method declared on a struct VALUE works on a copy of the record it was called on; an assignment to a
+// field of that receiver (not through a pointer, slice element or map the field holds) is gone when the method
+// returns.  For a reader that fills a shared record (weather series, soil description, crop parameters) the
+// destination then keeps whatever it had: the sibling encodings no longer fill the same destinations.  Exact rule over
+// every method of the in-scope packages; none exists on today's tree.
+func lostWrites(p *Prog, r *Report, rule string) {
+	r.Rule(rule, "no store to a copy: a method with a value receiver never assigns to a field of its receiver (the record the caller holds would keep its old content); every method that stores into its receiver's fields is declared on the pointer", 1)
+	nMeth, nStore := 0, 0
+	var keys []string
+	for k := range p.Funcs {
+		keys = append(keys, k)
+	}
+	sort.Strings(keys)
+	for _, k := range keys {
+		fi := p.Funcs[k]
+		if fi.Decl.Recv == nil || len(fi.Decl.Recv.List) != 1 || fi.Decl.Body == nil {
+			continue
+		}
+		nMeth++
+		info := fi.Pkg.TypesInfo
+		recvF := fi.Decl.Recv.List[0]
+		if len(recvF.Names) != 1 {
+			continue
+		}
+		ro := info.Defs[recvF.Names[0]]
+		if ro == nil {
+			continue
+		}
+		_, isStruct := ro.Type().Underlying().(*types.Struct)
+		// direct field of the receiver variable: recv.F, recv.F.G (struct-valued fields), recv.F[i] for an ARRAY field
+		var direct func(e ast.Expr) bool
+		direct = func(e ast.Expr) bool {
+			switch t := e.(type) {
+			case *ast.ParenExpr:
+				return direct(t.X)
+			case *ast.Ident:
+				return info.Uses[t] == ro
+			case *ast.SelectorExpr:
+				if sel, ok := info.Selections[t]; !ok || sel.Kind() != types.FieldVal || sel.Indirect() {
+					return false
+				}
+				return direct(t.X)
+			case *ast.IndexExpr:
+				if _, isArr := info.TypeOf(t.X).Underlying().(*types.Array); !isArr {
+					return false // slice and map elements are shared with the caller's record
+				}
+				return direct(t.X)
+			}
+			return false
+		}
+		ast.Inspect(fi.Decl.Body, func(n ast.Node) bool {
+			var lhs []ast.Expr
+			switch t := n.(type) {
+			case *ast.AssignStmt:
+				lhs = t.Lhs
+			case *ast.IncDecStmt:
+				lhs = []ast.Expr{t.X}
+			}
+			for _, l := range lhs {
+				if id, ok := l.(*ast.Ident); ok && info.Uses[id] == ro {
+					continue // re-binding the receiver variable itself
+				}
+				if direct(l) {
+					nStore++
+					if isStruct {
+						r.Ob("lost-write:"+short(fi.Key), p.Pos(l.Pos()), false, fmt.Sprintf("%s has a value receiver and stores into %s: the store changes a copy, the record of the caller keeps its old content", short(fi.Key), types.ExprString(l)))
+					}
+				}
+			}
+			return true
+		})
+	}
+	r.Ob("lost-write:scanned", "-", nMeth > 0, fmt.Sprintf("%d methods scanned, %d stores into fields of a receiver", nMeth, nStore))
 }
